@@ -509,4 +509,6 @@ def install():
     _set(packets, "len", sym_len)
     _set(packets, "bytes", BytesShimL)
     _set(packets, "struct", StructShimL)       # not used by the library today; present so that a refactor to struct stays decidable
+    StructShimL.Struct = lambda fmt: bv.StructObj(fmt, StructShimL)
+    bv.rehost_struct_objects(packets, _set, StructShimL)
     return packets, SymRaw
